@@ -11,6 +11,7 @@ import (
 
 	"github.com/cosmos/cosmos-sdk/crypto/keys/secp256k1"
 	sdk "github.com/cosmos/cosmos-sdk/types"
+	"github.com/cosmos/cosmos-sdk/types/address"
 	authtypes "github.com/cosmos/cosmos-sdk/x/auth/types"
 
 	"github.com/unification-com/mainchain/app"
@@ -45,8 +46,18 @@ func NewSymbols(n int) *Symbols {
 	for tok, name := range Modules {
 		s.Mods[tok] = authtypes.NewModuleAddress(name)
 	}
+	// addresses that are not 20 bytes long (nobody holds a key for them: they are only ever named — as a stream receiver, a
+	// transfer recipient, a whitelisted address): L0, L1 are 32-byte module-derived style addresses, L2 shares its first 20
+	// bytes with L1, L3 is those 20 bytes as an address of its own
+	l0 := address.Module("verif-long", []byte{0})
+	l1 := address.Module("verif-long", []byte{1})
+	l2 := append(append([]byte{}, l1[:20]...), []byte{0xee, 0xee, 0xee, 0xee, 0xee, 0xee, 0xee, 0xee, 0xee, 0xee, 0xee, 0xee}...)
+	s.Mods["L0"], s.Mods["L1"], s.Mods["L2"], s.Mods["L3"] = l0, l1, sdk.AccAddress(l2), sdk.AccAddress(append([]byte{}, l1[:20]...))
 	return s
 }
+
+// LongTokens lists the tokens of the addresses that are not key-derived (see NewSymbols).
+var LongTokens = []string{"L0", "L1", "L2", "L3"}
 
 // ModuleTokens lists the module account tokens in token order.
 var ModuleTokens = []string{"Mbond", "Mdist", "Ment", "Mfee", "Mgov", "Mnbond", "Mstr", "Mxfer"}
@@ -60,7 +71,7 @@ func AddrTable(n int) [][2]string {
 	for i, a := range s.Addrs {
 		out = append(out, [2]string{fmt.Sprintf("A%d", i), fmt.Sprintf("%x", []byte(a))})
 	}
-	for _, tok := range ModuleTokens {
+	for _, tok := range append(append([]string{}, ModuleTokens...), LongTokens...) {
 		out = append(out, [2]string{tok, fmt.Sprintf("%x", []byte(s.Mods[tok]))})
 	}
 	return out
@@ -103,7 +114,7 @@ func (s *Symbols) Resolve(tok string) (string, error) {
 		return "", nil
 	case tok == "X":
 		return NotAnAddress, nil
-	case strings.HasPrefix(tok, "M"):
+	case strings.HasPrefix(tok, "M"), strings.HasPrefix(tok, "L"):
 		if a, ok := s.Mods[tok]; ok {
 			return a.String(), nil
 		}
@@ -180,10 +191,12 @@ func tokKey(t string) (class, num, sub int, str string) {
 	switch {
 	case len(t) > 0 && t[0] == 'M':
 		return 1, 0, 0, t
+	case len(t) > 0 && t[0] == 'L':
+		return 2, 0, 0, t
 	case len(t) > 0 && t[0] == 'H':
-		return 2, 0, 0, t[1:]
+		return 3, 0, 0, t[1:]
 	}
-	return 3, 0, 0, t
+	return 4, 0, 0, t
 }
 
 // TokLess is the digest order on address tokens.
